@@ -302,6 +302,16 @@ def directed_malformed(start_id):
         k += 1
         out.append(dict({"id": k, "channels": 2, "bps": 16, "rate": 44100, "bpscode": "hdr", "ratecode": "table", "selfcheck": False, "class": "streaminfo-mismatch",
                          "frames": [{"bs": 16, "chassign": "indep", "subs": [{"type": "verbatim"}, {"type": "verbatim"}]}], "pcm": pcm2}, **extra))
+    # Rice codes standing for more than 32 bits (q * 2^k + low >= 2^32): no residual has such a value, the code is illegal - and the
+    # largest legal ones next to them as a control (class rice-edge: valid)
+    for k_, q, low in ((30, 4, 0), (30, 5, 12345), (30, 7, (1 << 30) - 1), (29, 8, 0), (28, 17, 5), (24, 256, 1), (23, 600, 0)):
+        for bps in (16, 32):
+            for ty, order in (("fixed", 0), ("fixed", 2)):
+                k += 1
+                out.append({"id": k, "channels": 1, "bps": bps, "rate": 44100, "bpscode": "hdr", "selfcheck": False, "class": "rice-overflow",
+                            "frames": [{"bs": 4, "subs": [{"type": ty, "order": order, "method": 1, "po": 0,
+                                                           "params": [["rawrice", k_, q, low]], "ov": {"res": [0]}}]}],
+                            "pcm": [[0, 1, -1, 2]]})
     # a block of 1..15 samples that is not the last one, under every coding of its length (8-bit and 16-bit field), in fixed- and
     # variable-blocking streams with a declared total (then it must be refused) and without one (then nothing says it is not the last)
     for short in (1, 2, 10, 14, 15):
